@@ -40,7 +40,7 @@ def ring_scenarios(tier):
         for skip in (0, 2):
             sc.append((3, 1, 1, 3, 7, skip, 100 + k, 0, 0, -1, 0, -1, 0, 0, 0))
     if tier == "thorough":
-        sc.append((4, 1, 2, 4, 15, 0, 101, 0, 0, -1, 0, -1, 0, 1, 1))  # two writers, 1 preemption
+        sc.append((3, 1, 2, 3, 7, 0, 101, 0, 0, -1, 0, -1, 0, 0, 0))  # two writers, unbounded
     # a deeper ring, unbounded, in both tiers (20k states)
     sc.append((4, 1, 1, 4, 15, 0, -1, 0, 0, -1, 0, -1, 0, 0, 0))
     # wider rings (2 readers / 2 writers: 1e5..1e6 states): thorough only, unbounded
